@@ -31,10 +31,10 @@ Theorem engine_propagates_panic : forall c p n k sz d ff e st,
 Proof. exact engine_propagates_panic_lemma. Qed.
 Print Assumptions engine_propagates_panic.
 
-(* ... and nothing else can make it panic when UseGitignore is off *)
+(* ... and nothing else can make it panic *)
 Theorem engine_panics_only_through_extract : forall c roots,
-  c_gitignore c = false -> no_xpanic c -> forall st pc, run c roots <> RPanic st pc.
-Proof. exact run_never_panics_without_gitignore. Qed.
+  no_xpanic c -> forall st pc, run c roots <> RPanic st pc.
+Proof. exact run_never_panics. Qed.
 Print Assumptions engine_panics_only_through_extract.
 
 (* non-vacuity: the same tree scanned with an extractor that fails on one file *)
